@@ -230,13 +230,36 @@ def eval_dot(nodes, edges, start, sp):
 
 
 # ------------------------------------------------------------ checks
+def as_form(rng, roots, declared='iterable'):
+    """`roots` in one of the forms that the declared type of the
+    parameter admits: `descendants` takes an iterable, `to_nx` a set,
+    `dump` a list."""
+    roots = list(roots)
+    if declared == 'list':
+        return roots
+    if declared == 'set':
+        return set(roots) if rng.randrange(2) else frozenset(roots)
+    k = rng.randrange(6)
+    if k == 0:
+        return roots
+    if k == 1:
+        return tuple(roots)
+    if k == 2:
+        return set(roots)
+    if k == 3:
+        return (r for r in roots)
+    if k == 4:
+        return iter(roots)
+    return dict.fromkeys(roots).keys()
+
+
 def check_roots(ctx, A, ab, _a, _b, roots, rng):
     bdd, sp = A.bdd, A.sp
     den = Denoter(bdd, sp)
     reach = monitors.reachable(bdd, roots)
     info = dict(roots=list(roots), order=A.order)
     # (b) descendants and sizes
-    d = bdd.descendants(list(roots))
+    d = bdd.descendants(as_form(rng, roots))
     ctx.counters['descendants_checks'] += 1
     if set(d) != reach:
         raise Violation('descendants', 'wrong-node-set',
@@ -262,7 +285,7 @@ def check_roots(ctx, A, ab, _a, _b, roots, rng):
         ctx.counters['traversals'] += 1
         del f
     # (c) networkx
-    g = _b.to_nx(bdd, set(roots))
+    g = _b.to_nx(bdd, as_form(rng, roots, 'set'))
     ctx.counters['nx_graphs'] += 1
     if set(g.nodes) != reach:
         raise Violation('to_nx', 'wrong-node-set',
@@ -281,13 +304,14 @@ def check_roots(ctx, A, ab, _a, _b, roots, rng):
     via = rng.randrange(3)
     try:
         if via == 0:
-            bdd.dump(fn, list(roots))
+            bdd.dump(fn, as_form(rng, roots, 'list'))
         elif via == 1:
-            bdd.dump(fn + '.txt', list(roots), filetype='dot')
+            bdd.dump(fn + '.txt', as_form(rng, roots, 'list'),
+                     filetype='dot')
             os.replace(fn + '.txt', fn)
         else:
             fs = [_a.Function(r, ab) for r in roots]
-            ab.dump(fn, fs)
+            ab.dump(fn, as_form(rng, fs, 'list'))
             del fs
         text = open(fn).read()
     finally:
